@@ -1,4 +1,5 @@
 SPECIFICATION Spec
 INVARIANT OnlyRotations
+INVARIANT MixedStacksAccepted
 INVARIANT AllDirectionsAccepted
 POSTCONDITION EmitAll
